@@ -120,6 +120,9 @@ def path_classes(rec):
     unset = p['maxk'] == 'none' or p['max'] == 0
     out.add('max-none' if p['maxk'] == 'none' else 'max-zero' if p['max'] == 0 else 'max-given')
     segs = seq(rec['s'])
+    fields = (['e'] if rec['l'] else []) + (segs or ['e']) + (['e'] if rec['t'] else [])
+    lead = len(fields) >= 2 and fields[0] == 'e'
+    after = fields[1:]
     if ref['err'] == 'none':
         ents = seq(ref['out'])
         out.add('accepted-rest' if p['rest'] else 'accepted')
@@ -134,11 +137,11 @@ def path_classes(rec):
     else:
         if not unset and p['min'] > p['max']:
             out.add('rejected-min-above-max')
-        elif not rec['l']:
+        elif not lead:
             out.add('rejected-no-leading-slash')
-        elif len(segs) < p['min']:
+        elif len(after) < p['min']:
             out.add('rejected-too-few')
-        elif 'e' in segs[:p['min']]:
+        elif 'e' in after[:p['min']]:
             out.add('rejected-empty-required-segment')
         else:
             out.add('rejected-trailing-data')
@@ -311,7 +314,7 @@ def run(ctx):
     # 3. every character sequence up to a length ---------------------------------------------
     res = results['chars']
     ctx.tlc(res, 'Split: every text up to length %d over {letter , " \\ space}; WriteInvertsRead, NoEmptyBareItem, '
-                 'QuotesBalanced, CommasCount' % (5 if quick else 7))
+                 'QuotesBalanced, CommasCount' % (6 if quick else 7))
     q = 0
     outcome = {'none': 0, 'ValueError': 0, 'unspecified': 0}
     for i, rec in enumerate(res.records):
@@ -381,5 +384,5 @@ def run(ctx):
         'length 3 over 8 character classes alone, up to length 2 in pairs, pools of 8 / 5 / 4 items in triples to '
         'quintuples) written quoted-where-needed and always-quoted, every text up to length %d over '
         '{letter , " \\ space}, and 8 malformed-quoting patterns at every position of lists of 1..3 items; '
-        'distinct_nontrivial = inputs accepted' % ((4, 5, 5) if quick else (5, 6, 7)))
+        'distinct_nontrivial = inputs accepted' % ((4, 5, 6) if quick else (5, 6, 7)))
     ctx.cov['exhaustive'] = True
